@@ -11,7 +11,8 @@ from .. import common as C
 ID = 'C02'
 MODEL = 'c02'
 RUNFUN = 'run'
-COQ_TARGETS = ['theories/Properties/C02.vo', 'theories/Extract/RunC02.vo']
+COQ_TARGETS = ['theories/Properties/C02.vo', 'theories/Extract/RunC02.vo', 'theories/Properties/Chain.vo']
+EXTRA_PROPERTIES = ['Chain']   # cross-package composition theorems (C07 o C02, C09 o C02, C05 o C02 o C07, C04 o C07 o C02)
 DESIGN_REF = 'DESIGN.md section 6, C02'
 TECHNIQUE = ('Coq proof (ring-generic: window arithmetic of propagate_dft by lia, triple product = defining sum, '
              'Wavefront.field = sum of embeddings) + execution of the extracted model of propagate_dft on the exact group '
